@@ -534,7 +534,8 @@ impl CompressedEmbedding {
             return Self::Dense(Vec::new());
         }
 
-        let nnz = vector.iter().filter(|&&v| v.abs() > 1e-6).count();
+        // Only an exact +0.0 may be left out: tiny values, -0.0 and NaN must survive a snapshot.
+        let nnz = vector.iter().filter(|&&v| v.to_bits() != 0).count();
         // For 0.5 threshold: sparse if nnz <= len/2, i.e., nnz*2 <= len
         let use_sparse = nnz * 2 <= vector.len();
 
@@ -542,7 +543,7 @@ impl CompressedEmbedding {
             let mut positions = Vec::with_capacity(nnz);
             let mut values = Vec::with_capacity(nnz);
             for (i, &v) in vector.iter().enumerate() {
-                if v.abs() > 1e-6 {
+                if v.to_bits() != 0 {
                     if let Ok(pos) = u32::try_from(i) {
                         positions.push(pos);
                         values.push(v);
